@@ -65,6 +65,12 @@ FUNCTIONS = [
     ('loop_delete_resource', 'dataflows.processors.delete_resource', ['delete_resource', 'func', '@for:-1']),
     # the validator loop; `on_error` is a user callable that may update the row it is given (clear does): its calls are
     # hoisted into `extCall` statements, which write the updated arguments back
+    # Flow: the dispatch of one link (the body of `_chain`'s loop) and the folding of checkpoints into the chain
+    ('flow_chain_body', 'dataflows.base.flow', ['Flow', '_chain', '@for:0', '@body']),
+    ('flow_preprocess', 'dataflows.base.flow', ['Flow', '_preprocess_chain'], ['self.chain']),
+    ('checkpoint_handle', 'dataflows.processors.checkpoint', ['checkpoint', 'handle_flow_checkpoint'], ['self.steps']),
+    ('checkpoint_preprocess', 'dataflows.processors.checkpoint', ['checkpoint', '_preprocess_chain'],
+     ['self.filename', 'self.chain', 'self.checkpoint_path', 'self.checkpoint_name']),
     ('loop_schema_validator', 'dataflows.base.schema_validator', ['schema_validator', '@for:-1'], [], {'wb': ['on_error']}),
 ]
 AGG_KEYS = ['sum', 'avg', 'median', 'max', 'min', 'first', 'last', 'count', 'any', 'set', 'array', 'counters']
@@ -227,6 +233,8 @@ class Tr:
                 name = f.attr if BCTOR.get(f.attr) is None else None
             elif isinstance(f, ast.Attribute) and BCTOR.get('.' + f.attr) is None:
                 return self.call('.' + f.attr, [self.e(f.value)] + args + kwargs)
+            elif isinstance(f, ast.Call):
+                return self.call('$apply', [self.e(f)] + args + kwargs)
             if name is None:
                 return self.unsup('keyword arguments of a builtin')
             return self.call(name, args + kwargs)
@@ -248,11 +256,16 @@ class Tr:
                 return out
             return self.call(f.id, args)
         if isinstance(f, ast.Attribute):
-            if isinstance(f.value, ast.Name) and f.value.id in ('re', 'collections', 'copy', 'os', 'json'):
+            if isinstance(f.value, ast.Name) and f.value.id in ('re', 'collections', 'copy', 'os', 'json', 'itertools'):
                 mod = f.value.id
                 name = {'collections': f.attr, 'copy': f.attr}.get(mod, '%s.%s' % (mod, f.attr))
                 return self.call(name, args)
+            if isinstance(f.value, ast.Attribute) and isinstance(f.value.value, ast.Name) and f.value.value.id == 'os':
+                return self.call('os.%s.%s' % (f.value.attr, f.attr), args)
             return self.call('.' + f.attr, [self.e(f.value)] + args)
+        if isinstance(f, ast.Call):
+            # the result of a call is called: `wrapper(link)(ds)` = apply(wrapper(link), ds)
+            return self.call('$apply', [self.e(f)] + args)
         return self.unsup('call of %s' % type(f).__name__)
 
     # ---- statements
@@ -387,6 +400,10 @@ def module_tree(modname):
 def locate(tree, path):
     node = tree
     for name in path:
+        if name == '@body':
+            # the statements of a compound statement's body, as one statement
+            node = ast.If(test=ast.Constant(True), body=list(node.body), orelse=[])
+            continue
         if name.startswith('@for:'):
             fors = [st for st in getattr(node, 'body', []) if isinstance(st, ast.For)]
             k = int(name[5:])
